@@ -365,6 +365,13 @@ func c02Fixed(server string) []gProg {
 		mk(gOp{K: "read", H: "r0", Off: 7, Len: 300}, gOp{K: "fstat", H: "r1"}, gOp{K: "write", H: "w0", Off: 33000, Len: 10}, gOp{K: "read", H: "r1", Off: 99990, Len: 100}),
 		mk(gOp{K: "write", H: "w0", Off: 0, Len: 100}, gOp{K: "readdir", H: "d0"}, gOp{K: "read", H: "r0", Off: 1, Len: 1}, gOp{K: "close", H: "d0"}),
 	}
+	// one request whose type does not fit the kind of its handle, alone in the stream (minimal inputs for F13 on the
+	// request server; on the os-backed server the kernel refuses the operation and an error STATUS is the legal reply)
+	var single []gProg
+	for _, m := range [][2]string{{"read", "mw"}, {"write", "mr"}, {"read", "md"}, {"write", "md"}, {"readdir", "mr"}, {"readdir", "mw"}, {"readdir", "mx"}} {
+		single = append(single, mk(gOp{K: m[0], H: m[1], Len: 16}))
+	}
+	out = append(single, out...)
 	if server == "rs" {
 		out = append(out,
 			mk(gOp{K: "stat", P: "s0"}, gOp{K: "read", H: "r0", Off: 64, Len: 64}, gOp{K: "write", H: "w0", Off: 0, Len: 64}, gOp{K: "read", H: "r1", Off: 0, Len: 0}),
@@ -382,11 +389,11 @@ type c02Job struct {
 }
 
 func c02Orders(p gProg, limit int) ([][]int, bool) {
-	return feasibleOrders(c18Reqs(p), limit)
+	return feasibleOrders(gSimReqs(p), limit)
 }
 
 func c02RandomOrder(p gProg, rng *rand.Rand, style string) []int {
-	return randomOrder(c18Reqs(p), rng, style)
+	return randomOrder(gSimReqs(p), rng, style)
 }
 
 func init() {
@@ -439,6 +446,17 @@ func c02Summarise(run *gRun, job c02Job, modelOK bool) gSummary {
 		if run.Fault != nil {
 			f.Input = map[string]any{"case": cs, "model_trace_so_far": run.Trace}
 		}
+		if f.Key == "rs/handle-method-mismatch" {
+			shape := f.What
+			if i := strings.Index(shape, " answered with "); i > 0 {
+				reply := strings.Fields(shape[i+len(" answered with "):])
+				shape = shape[:i] + " -> " + reply[0]
+				if len(reply) > 2 && reply[0] == "STATUS" {
+					shape += " " + reply[2]
+				}
+			}
+			hist("known-F13/" + shape)
+		}
 		s.Fails = append(s.Fails, f)
 	}
 	if run.Fault == nil {
@@ -473,10 +491,22 @@ func checkC02(c *lib.Ctx) {
 	}
 
 	if c.Replay != "" {
-		var cs gCase
-		if err := lib.ReadReplay(c.Replay, &cs); err != nil {
+		var in struct {
+			gCase
+			Case     *gCase `json:"case"`
+			Requests string `json:"requests"`
+		}
+		if err := lib.ReadReplay(c.Replay, &in); err != nil {
 			r.Fail(lib.Failure{Kind: "tie", Key: "replay", What: err.Error()})
 			return
+		}
+		if in.Requests != "" { // the end-of-stream observation (F5)
+			c02EndOfStream(c, modelOK)
+			return
+		}
+		cs := in.gCase
+		if in.Case != nil {
+			cs = *in.Case
 		}
 		sums := gRunBatches(c, "c02", []json.RawMessage{gJSON(c02Job{Case: cs})}, 1, modelOK, describe)
 		lines, impl := gMerge(r, sums, 4)
@@ -547,14 +577,6 @@ func checkC02(c *lib.Ctx) {
 	r.Note("%d programs had all their feasible completion orders enumerated and forced (%d orders in total)", nProg, nOrders)
 
 	c02EndOfStream(c, modelOK)
-}
-
-func sumValues(m map[string]int) int {
-	s := 0
-	for _, v := range m {
-		s += v
-	}
-	return s
 }
 
 func c02Replies(run *gRun) []string {
